@@ -215,10 +215,12 @@ class extract_visitor(NodeVisitor):
 
     def visit_IfExp(self, node):
         # type: (ast.IfExp) -> None
-        if not self._binds([node.body, node.orelse]):
+        if not self._binds([node.test, node.body, node.orelse]):
             self.generic_visit(node)
             return
-        # `(x := 1) if c else (x := 2)`: only one of the arms is evaluated
+        # `(x := 1) if c else (x := 2)`: only one of the arms is evaluated;
+        # `y if (y := f()) else 0`: the test, written behind the first arm,
+        # is evaluated before it
         self.visit(node.test)
         cur = self.flow
         body = self.visit_in_flow(node.body, self.make_flow('ifexp', [cur]))
@@ -493,7 +495,9 @@ class extract_visitor(NodeVisitor):
                 else:
                     name = nn  # type: ast.Name # type: ignore[assignment]
                     name.flow = pp  # type: ignore[attr-defined]
-                    p.add_name(AssignedName(name.id, np(node), np(name), g.iter))
+                    # (the variable of a comprehension is its own: it does not
+                    # make the name a local of the enclosing function)
+                    p.add_name(AssignedName(name.id, np(node), np(name), g.iter), local=False)
             self.visit_in_flow(g.target, p)
 
             if g.ifs:
